@@ -171,7 +171,7 @@ pub const REPRS: &[&str] = &["vec_exact", "vec_exact_adv", "vec_spare", "bm_froz
 
 pub const TASK_OPS: &[&str] = &[
     "clone_shared", "clone", "read", "slice", "split_off", "split_to", "truncate", "advance", "drop", "try_into_mut", "into_mut", "into_vec",
-    "reserve", "try_reclaim", "extend", "unsplit", "freeze", "write", "is_unique", "m_split_off",
+    "reserve", "try_reclaim", "extend", "unsplit", "freeze", "write", "is_unique", "m_split_off", "is_unique_shared",
 ];
 
 // ------------------------------------------------------------------ generation
@@ -180,15 +180,15 @@ fn gen_ops(rng: &mut Rng, n: usize, family: &str) -> J {
     let mut v = Vec::new();
     for _ in 0..n {
         let w: &[u32] = match family {
-            "promotion" => &[12, 3, 6, 2, 1, 1, 1, 1, 4, 1, 1, 1, 0, 0, 0, 0, 0, 0, 2, 0],
-            "lastref" => &[2, 3, 8, 2, 1, 1, 1, 1, 10, 1, 1, 1, 0, 0, 0, 0, 0, 0, 1, 0],
-            "unique" => &[1, 3, 4, 1, 1, 1, 1, 1, 5, 6, 6, 6, 1, 1, 1, 0, 1, 2, 3, 0],
-            "reclaim" => &[0, 1, 4, 0, 0, 0, 0, 1, 5, 0, 0, 1, 8, 6, 4, 2, 3, 4, 0, 3],
-            _ => &[4, 4, 5, 3, 2, 2, 2, 2, 5, 3, 3, 3, 3, 2, 2, 1, 2, 2, 2, 1],
+            "promotion" => &[12, 3, 6, 2, 1, 1, 1, 1, 4, 1, 1, 1, 0, 0, 0, 0, 0, 0, 2, 0, 6],
+            "lastref" => &[2, 3, 8, 2, 1, 1, 1, 1, 10, 1, 1, 1, 0, 0, 0, 0, 0, 0, 1, 0, 1],
+            "unique" => &[1, 3, 4, 1, 1, 1, 1, 1, 5, 6, 6, 6, 1, 1, 1, 0, 1, 2, 3, 0, 2],
+            "reclaim" => &[0, 1, 4, 0, 0, 0, 0, 1, 5, 0, 0, 1, 8, 6, 4, 2, 3, 4, 0, 3, 0],
+            _ => &[4, 4, 5, 3, 2, 2, 2, 2, 5, 3, 3, 3, 3, 2, 2, 1, 2, 2, 2, 1, 2],
         };
         let k = rng.weighted(w);
         let mut o = J::obj().set("op", TASK_OPS[k]).set("h", rng.below(4)).set("a", rng.below(40)).set("b", rng.below(40));
-        if TASK_OPS[k] == "clone_shared" {
+        if TASK_OPS[k] == "clone_shared" || TASK_OPS[k] == "is_unique_shared" {
             o = o.set("s", rng.below(2));
         }
         v.push(o);
@@ -235,7 +235,7 @@ pub fn gen_program_f(rng: &mut Rng, focus: bool) -> J {
         tasks.push(J::obj().set("init", if family == "promotion" { J::Arr(vec![]) } else { J::Arr(init) }).set("ops", ops).set("ret", rng.chance(1, 3)));
     }
     let root_early = family != "promotion" && rng.chance(1, 2);
-    let strip = |ops: &J| -> J { J::Arr(ops.as_arr().iter().filter(|o| !(root_early && o.str("op") == Some("clone_shared"))).cloned().collect()) };
+    let strip = |ops: &J| -> J { J::Arr(ops.as_arr().iter().filter(|o| !(root_early && matches!(o.str("op"), Some("clone_shared") | Some("is_unique_shared")))).cloned().collect()) };
     let tasks: Vec<J> = tasks
         .into_iter()
         .map(|t| {
@@ -363,6 +363,20 @@ pub fn run_ops(ctx: &Ctx, hs: &mut Vec<H>, ops: &[J]) {
                 check_read(ctx, &h, "clone through the shared &Bytes");
                 hs.push(h);
                 probe("clone_through_shared_ref");
+            }
+            continue;
+        }
+        if name == "is_unique_shared" {
+            let s = op.us("s") % ctx.shared.len().max(1);
+            if let Some(Some(sr)) = ctx.shared.get(s) {
+                // the (racy, advisory) uniqueness query through a shared &Bytes while others clone it
+                let root: &Bytes = unsafe { &*sr.0 };
+                let u = plat::track(|| root.is_unique());
+                let own = hs.iter().filter(|x| !x.private && x.storage == s && x.real.is_some() && x.model.len() > 0 && matches!(x.real, Some(Real::B(_)))).count();
+                if u && own > 0 && ctx.storages[s].heap {
+                    viol(&["C05", "C08"], "is_unique-true-while-shared", format!("task {}: is_unique() through the shared &Bytes = true while this task holds {} clone(s)", ctx.task, own));
+                }
+                probe("is_unique_through_shared_ref");
             }
             continue;
         }
@@ -877,7 +891,8 @@ pub fn run_program(prog: &J) {
     let main_ops: Vec<J> = prog.arr("main_ops").to_vec();
     // nobody clones through the shared refs: main may let go of the roots while the tasks
     // still run, so the last reference is dropped by whichever task comes last
-    let uses_shared = tasks.iter().any(|t| t.arr("ops").iter().any(|o| o.str("op") == Some("clone_shared"))) || main_ops.iter().any(|o| o.str("op") == Some("clone_shared"));
+    let is_sh = |o: &J| matches!(o.str("op"), Some("clone_shared") | Some("is_unique_shared"));
+    let uses_shared = tasks.iter().any(|t| t.arr("ops").iter().any(|o| is_sh(o))) || main_ops.iter().any(|o| is_sh(o));
     let mut pinned_roots = pinned_roots;
     if prog.boolean("root_early") && !uses_shared {
         probe("roots_dropped_while_tasks_run");
